@@ -27,7 +27,12 @@ def bottomUp (f : Expr → Option Expr) : Expr → Expr
   | .union a b => let e := Expr.union (bottomUp f a) (bottomUp f b); (f e).getD e
   | .inter a b => let e := Expr.inter (bottomUp f a) (bottomUp f b); (f e).getD e
   | .diff a b => let e := Expr.diff (bottomUp f a) (bottomUp f b); (f e).getD e
-  | e => (f e).getD e
+  | .none => (f .none).getD .none
+  | .all => (f .all).getD .all
+  | .visibleHeads => (f .visibleHeads).getD .visibleHeads
+  | .visibleHeadsOrReferenced => (f .visibleHeadsOrReferenced).getD .visibleHeadsOrReferenced
+  | .root => (f .root).getD .root
+  | .commits l => (f (.commits l)).getD (.commits l)
 
 /-! ### `unfold_difference` -/
 
